@@ -22,6 +22,7 @@ class Concurrent(Harness):
     def __init__(self, transport, keep_alive, ntasks, T=3, retries=1, two_objects=False, pinned=None):
         self.transport, self.keep_alive, self.ntasks, self.T, self.retries = transport, keep_alive, ntasks, T, retries
         self.two_objects = two_objects
+        self.shapes = False    # True: caller j reads 2+j registers (answers of different callers differ in shape)
         self.pinned = pinned   # optional {caller index: [kind per transmission]} (decomposition of the 3-caller space)
         self.params = {"transport": transport, "keep_alive": keep_alive, "ntasks": ntasks, "T": T, "retries": retries,
                        "two_objects": two_objects, "pinned": pinned}
@@ -81,7 +82,7 @@ class Concurrent(Harness):
                 if not (isinstance(off, int) and off == 0):
                     await asyncio.sleep(off)
                 inv = invs[j % len(invs)]
-                cmd = inv._read_command(REG0 + 10 * j, 2)
+                cmd = inv._read_command(REG0 + 10 * j, 2 + (j if self.shapes else 0))
                 try:
                     r = await inv._read_from_socket(cmd)
                     done[j] = (world.now, "response", r.response_data())
@@ -113,7 +114,7 @@ class Concurrent(Harness):
             if kind.startswith("leak"):
                 fail("a caller ended with a non-InverterError exception", kind)
             if kind == "response":
-                want = (REG0 + 10 * j).to_bytes(2, "big") * 2
+                want = (REG0 + 10 * j).to_bytes(2, "big") * (2 + (j if self.shapes else 0))
                 if bytes(payload) != want:
                     fail("a caller received the answer to another caller's request", f"caller {j}: {bytes(payload).hex()} != {want.hex()}")
         for j in range(n):
